@@ -129,7 +129,7 @@ PROPS_EXTRA = {
     'C12': ['Props.CodecFacts', 'Props.GenFetcher'],
     'C14': ['Props.GenHeads', 'Props.GenJoin', 'Props.GenJoinTail', 'Props.GenCapstoneJoin'],
     'C15': ['Props.C13Facts', 'Props.GenTraverse', 'Props.GenIterator', 'Props.GenCapstoneIter'],
-    'C16': ['Props.GenJoin', 'Props.GenJoinTail'],
+    'C16': ['Props.GenJoin', 'Props.GenJoinTail', 'Props.GenCapstoneBounded'],
     'C17': ['Props.EffectFacts', 'Props.GenFetcher'],
     'C18': ['Props.CodecFacts', 'Props.GenMisc'],
     'C19': ['Props.C19Gen'],
